@@ -142,7 +142,7 @@ type c03Layer struct {
 
 type c03Patch struct {
 	ID   string `json:"id"`   // target resource
-	Op   string `json:"op"`   // add | replace | remove (remove is followed by an add that restores the user annotations)
+	Op   string `json:"op"`   // JSON6902: add | replace | remove (followed by an add restoring the user annotations); merge = strategic merge patch
 	Kind string `json:"kind"` // target kind
 }
 
@@ -609,7 +609,7 @@ func c03AddAnnotationPatches(g *c03Gen) {
 		}
 		at := where[rng.Intn(len(where))]
 		b.Layers[at].Patches = append(b.Layers[at].Patches,
-			c03Patch{ID: t.ID, Kind: t.Kind, Op: rng.Pick([]string{"add", "replace", "remove"})})
+			c03Patch{ID: t.ID, Kind: t.Kind, Op: rng.Pick([]string{"add", "replace", "remove", "add", "replace", "remove", "merge"})})
 		n++
 	}
 }
@@ -626,6 +626,18 @@ func c03PatchEntry(b *c03Build, p c03Patch) map[string]interface{} {
 			}
 		}
 	}
+	target := map[string]interface{}{"kind": p.Kind, "annotationSelector": c03Tracer + "=" + p.ID}
+	if p.Op == "merge" {
+		// a strategic merge patch through the same field: no StorePreviousId (name / kind changes not allowed)
+		t := b.res(p.ID)
+		av := "v1"
+		if t != nil {
+			av = t.APIVersion
+		}
+		doc := map[string]interface{}{"apiVersion": av, "kind": p.Kind,
+			"metadata": map[string]interface{}{"name": "any", "annotations": map[string]interface{}{"verif.c03/patched": "yes"}}}
+		return map[string]interface{}{"target": target, "patch": c03Yaml(doc)}
+	}
 	var ops []interface{}
 	switch p.Op {
 	case "remove":
@@ -638,10 +650,7 @@ func c03PatchEntry(b *c03Build, p c03Patch) map[string]interface{} {
 	if err != nil {
 		panic(err)
 	}
-	return map[string]interface{}{
-		"target": map[string]interface{}{"kind": p.Kind, "annotationSelector": c03Tracer + "=" + p.ID},
-		"patch":  string(raw),
-	}
+	return map[string]interface{}{"target": target, "patch": string(raw)}
 }
 
 // c03AddTwins: in a build with two sibling bases, copy a referent and a referrer of it from one base into
@@ -1327,6 +1336,9 @@ func c03LayerTerm(b *c03Build, i int, vals map[string]bool, pairs map[[2]string]
 	ids := c03LayerIDs(b, i)
 	var touches []string
 	for _, p := range l.Patches {
+		if p.Op == "merge" {
+			continue // ApplySmPatch records the id only when the patch may change name or kind
+		}
 		flags := make([]string, len(ids))
 		for k, id := range ids {
 			flags[k] = coqBool(id == p.ID)
